@@ -21,7 +21,7 @@ from vf.oracles.qref import q_ref
 
 LEVEL = "exploration"
 RULE = (
-    "safety: brew(override=False) x learners {linear, svc, constant, noise, invert, knn memoriser} x label encodings "
+    "safety: brew(override=False) x learners {linear, svc, constant, noise, invert, knn memoriser, weak (degraded ranking), overfit (exact on its training rows, degraded elsewhere)} x label encodings "
     "{1/-1, 1/0, bool} x best feature higher-/lower-is-better x text/Parquet x 1..2 files x folds 2..4, train_fdr = "
     "test_fdr; judged: fell back to a recorded best feature with its direction, or accepts >= the best feature's "
     "training count; recorded (best_feat, feat_pass, desc) is an arg-max over features x directions on the recorded "
@@ -35,16 +35,16 @@ ASSUMPTIONS = [
     "q-values for counting use the real tdc (C01)",
 ]
 CASE_TIMEOUT = 600
-LEARNERS = ["linear", "constant", "invert", "knn:proba", "noise", "svc"]
+LEARNERS = ["linear", "constant", "invert", "knn:proba", "noise", "svc", "weak", "overfit"]
 ENCS = ["pm1", "01", "bool"]
 
 
 def plan(seed, tier):
-    n = 72 if tier == "quick" else 1080
+    n = 96 if tier == "quick" else 1200
     cases = []
     for i in range(n):
-        cases.append({"class": "safety", "index": i, "learner": LEARNERS[i % 6], "enc": ENCS[(i // 6) % 3],
-                      "best_desc": bool((i // 18) % 2 == 0), "fmt": ["pin", "parquet"][(i // 3) % 2],
+        cases.append({"class": "safety", "index": i, "learner": LEARNERS[i % 8], "enc": ENCS[(i // 8) % 3],
+                      "best_desc": bool((i // 24) % 2 == 0), "fmt": ["pin", "parquet"][(i // 3) % 2],
                       "nfiles": [1, 2][(i // 5) % 2], "folds": int(2 + (i // 7) % 3), "override": bool(i % 12 == 11),
                       "cost": 3})
     m = 12 if tier == "quick" else 120
@@ -85,6 +85,18 @@ def run_safety(case):
         if out["status"].startswith("refused"):
             res["status"] = "refused"
             res["note"] = out["error"]["msg"]
+            if "No PSMs" in out["error"]["msg"] or "No target PSMs" in out["error"]["msg"]:
+                # refusing to train is fine when nothing separates targets from decoys - not when a single feature,
+                # in one of the two directions, accepts plenty of genuine targets on the whole table
+                best = 0
+                for t in tabs:
+                    tt = t["truth"]["is_target"].values
+                    for f in t["features"]:
+                        for dsc in (True, False):
+                            best = max(best, accepted(tdc, t["df"][f].values, tt, fdr, dsc))
+                if best >= 30:
+                    res.violate("refused_although_a_feature_separates", "lower_is_better" if not case["best_desc"] else "higher_is_better",
+                                accepted_by_best_feature=best, msg=out["error"]["msg"], **extra)
             return res
         log = out["log"]
         training, final = cv.split_log(log)
